@@ -93,7 +93,7 @@ func planC05(tier string, seed uint64) *Plan {
 	tlsModes := []string{"stub"}
 	if tier == "thorough" {
 		cfgs = []JobCfg{mkCfg(2, 5, 128, nil, stdFeeds), mkCfg(10, 5, 16, nil, stdFeeds), mkCfg(30, 1, 1, nil, stdFeeds)}
-		for i := 0; i < 17; i++ {
+		for i := 0; i < 18; i++ {
 			corpus = append(corpus, i)
 		}
 		maxhops = 2
@@ -102,7 +102,7 @@ func planC05(tier string, seed uint64) *Plan {
 		tlsModes = []string{"stub", "real"}
 	} else {
 		cfgs = []JobCfg{mkCfg(2, 5, 128, nil, stdFeeds), mkCfg(10, 5, 4, nil, stdFeeds)}
-		corpus = []int{0, 1, 6, 9, 10, 13}
+		corpus = []int{0, 1, 6, 7, 10, 11, 14}
 	}
 	var groups []*Group
 	k := 0
